@@ -2,7 +2,10 @@
    comparison, BYTE FOR BYTE, with Model/JsonEnc.v, evaluated by vm_compute.
 
    Every case carries the exact bytes the real code produced:
-   - [JCStr s out]        json.NewEncoder(w).Encode(s) for a Go string s wrote [out]  (= enc_string s, newline);
+   - [JCStr s out valid back]  json.NewEncoder(w).Encode(s) for a Go string s wrote [out]  (= enc_string s, newline);
+                          utf8.ValidString(s) = valid (= valid_utf8 s); json.Unmarshal of [out] into a Go string gave
+                          [back] (= sanitize s, and = dec_string of the text: the spec-side functions of the theorems
+                          are tied to the Go library too);
    - [JCEv e line]        auditevent.NewDefaultAuditEventWriter(w).Write(ev) for a generated AuditEvent whose JSON
                           view is e issued one Write call with the bytes [line]        (= enc_line e);
    - [JCLogin tok msg ws] the REAL sshd processor, given (tok, msg) and writing through the real event writer,
@@ -21,7 +24,7 @@ From AM Require Import Lib.Bytes Model.JsonEnc Model.SshdProc Model.SshdCheck Mo
 Open Scope list_scope.
 
 Inductive jcase :=
-| JCStr (s out : str)
+| JCStr (s out : str) (valid : bool) (back : str)
 | JCEv (e : jevent) (line : str)
 | JCLogin (tok msg : str) (ws : list (str * str * str))
 | JCAction (l : login_ident) (ce : cevent) (t : str) (line : str)
@@ -49,7 +52,9 @@ Definition ostr_eqb (a b : option str) : bool :=
 (* Go maps arrive in the harness' generation order: the rendering sorts them ([jmap]) *)
 Definition case_ok (c : jcase) : bool :=
   match c with
-  | JCStr s out => seqb (enc_string s ++ [newline]) out
+  | JCStr s out valid back =>
+      seqb (enc_string s ++ [newline]) out && Bool.eqb (valid_utf8 s) valid && seqb (sanitize s) back
+      && ostr_eqb (dec_string (enc_string s)) (Some back)
   | JCEv e line => seqb (enc_line e) line
   | JCLogin tok msg ws =>
       all2 (fun ev w => let '(aid, t, line) := w in seqb (enc_line (login_view aid t ev)) line)
@@ -69,7 +74,7 @@ Definition mismatches (cs : list jcase) : list nat := mism_from case_ok 0 cs.
 (* what the model says, for a report *)
 Definition model_out (c : jcase) : list str :=
   match c with
-  | JCStr s _ => [enc_string s ++ [newline]]
+  | JCStr s _ _ _ => [enc_string s ++ [newline]; sanitize s]
   | JCEv e _ => [enc_line e]
   | JCLogin tok msg ws =>
       map (fun ev => enc_line (login_view [] [] ev)) (r_writes (process cfg0 tok msg true true))
